@@ -14,5 +14,7 @@ done
 git -C /repo status --short
 # every patched tree leaves its objects in the Go build cache (it reached 110 GB once and blocked sandbox snapshots): trim it
 sz=$(du -sm /root/.cache/go-build 2>/dev/null | cut -f1); if [ "${sz:-0}" -gt 20000 ]; then GOFLAGS=-mod=mod go clean -cache; fi
+# the runs above rewrote evidence/ and the regenerated tables from patched trees: put the committed ones back
+git -C /verif checkout -- evidence lean/LayerModel/Gen 2>/dev/null
 echo "missed: $missed"
 exit $missed
